@@ -522,6 +522,9 @@ func (e *Exec) applyHavoc(st *State, h *hctx, fn *ssa.Function, resType types.Ty
 			if l.key == "G|*" {
 				// every ghost variable known so far
 				for k := range e.ghostNames {
+					if strings.HasPrefix(k, "H:") {
+						continue // history ghosts change only through `records` (or an explicit modifies entry)
+					}
 					if e.ghostFrameRestricted("G|" + k) {
 						h.pendingGhost = append(h.pendingGhost, pendingGhostCheck{"G|" + k, e.ghostInt(st, k)})
 					}
@@ -767,6 +770,13 @@ func (e *Exec) verifIntrinsic(fr *frame, st *State, name string, fn *ssa.Functio
 		// returns; while the callee itself is verified the clause is bookkeeping only
 		if h := e.curH(); h.apply {
 			e.ghostInt(st, args[0].Name)
+			if e.ghostFrameRestricted("G|" + args[0].Name) {
+				// the caller's frame does not list this history ghost
+				saveSpec := e.spec
+				e.spec = 0
+				e.check(st, "frame", smt.False, h.callPos, "")
+				e.spec = saveSpec
+			}
 			st.Ghost["G|"+args[0].Name] = args[1]
 			if e.disc != nil {
 				e.disc.ghost["G|"+args[0].Name] = true
@@ -1098,7 +1108,7 @@ func (e *Exec) ghostFrameRestricted(key string) bool {
 		}
 		ok := false
 		for _, l := range fs.locs {
-			if l.key == key || l.key == "G|*" {
+			if l.key == key || (l.key == "G|*" && !strings.HasPrefix(key, "G|H:")) {
 				ok = true
 			}
 		}
